@@ -44,6 +44,7 @@ type exec struct {
 	curCase   int
 	curMut    string // how the current input was derived (fingerprint part)
 	encBuf    []byte
+	retain    *retainState
 }
 
 func newExec(fam string, seed uint64) *exec {
